@@ -145,6 +145,7 @@ struct PostWin {
 /// Flags and counters the property modules turn into evidence classes / the non-trivial rule.
 #[derive(Default, Debug, Clone)]
 pub struct Facts {
+    pub wakeups: u32,
     pub adapter_waits_armed: u32,
     pub adapter_wakes: u32,
     /// composites whose insertion failed half-way and left a registered timer child behind
@@ -213,6 +214,7 @@ struct MAsync {
 pub struct Monitor {
     /// upper bound on timer-wheel entries left behind by composites whose insertion failed half-way
     ghost_timers: usize,
+    disp_reg_failed: bool,
     asyncs: Vec<MAsync>,
     pending_adapt: Option<(Option<usize>, bool)>,
     pending_release: Option<(usize, bool)>,
@@ -282,6 +284,7 @@ impl Monitor {
     pub fn new() -> Self {
         Monitor {
             ghost_timers: 0,
+            disp_reg_failed: false,
             asyncs: vec![],
             pending_adapt: None,
             pending_release: None,
@@ -427,6 +430,17 @@ impl Monitor {
             return viol("C15.panic", &["C15", "C08"], format!("registration call panicked: {msg} at {file}:{line}"));
         }
         self.apply_reg(src, &kind, ok);
+        if !ok && matches!(kind, RegKind::Unreg) {
+            // what a failed unregistration leaves behind for the failing source itself is unspecified
+            self.taint(src, "failed_unregister");
+        }
+        if !ok && matches!(kind, RegKind::Rereg) {
+            self.taint(src, "failed_reregister");
+        }
+        if !ok && self.in_disp {
+            // a (scripted or kernel-reported) registration failure inside a dispatch may surface as that dispatch's error
+            self.disp_reg_failed = true;
+        }
         let ev = RegEv { kind, src, ok };
         if let Some((_, evs)) = self.cur_op.as_mut() {
             evs.push(ev);
@@ -914,6 +928,10 @@ impl Monitor {
                 None
             }
             ROp::DropIdleHandle { .. } => None,
+            ROp::Wakeup => {
+                self.facts.wakeups += 1;
+                None
+            }
             ROp::FailNext { src, step } => {
                 self.srcs[src].fail = Some(step);
                 None
@@ -1448,6 +1466,7 @@ impl Monitor {
                 self.disp_no += 1;
                 self.disp_t0 = *t_ns;
                 self.disp_err_cause = false;
+                self.disp_reg_failed = false;
                 self.disp_hooks_failed = false;
                 self.disp_first_proc_seen = false;
                 self.disp_idle_phase = false;
@@ -1542,7 +1561,7 @@ impl Monitor {
                 }
                 // every sub-source the harness pinged must be among the real events
                 for (i, c) in m.sub_pings.iter().enumerate() {
-                    if *c > 0 && !keys.iter().any(|k| (k & 0xFFFF) as usize == i) {
+                    if *c > 0 && m.taint.is_none() && !keys.iter().any(|k| (k & 0xFFFF) as usize == i) {
                         return viol("C14.iter", &["C14", "C02"], format!("before_handle_events of source #{s} does not list pinged sub-source {i} (keys {keys:x?})"));
                     }
                 }
@@ -1960,11 +1979,23 @@ impl Monitor {
                     }
                     _ => {
                         self.facts.failed_dispatches += 1;
-                        if !self.disp_err_cause {
+                        if !self.disp_err_cause && !self.disp_reg_failed {
                             // an error we did not cause: outside every statement; stop judging this case
-                            self.facts.foreign = Some(format!("dispatch failed without a modelled cause: {res:?}"));
                             self.stop = true;
-                            return None;
+                            if self.any_taint() {
+                                // a source used against its documented protocol may fail on its own (e.g. the deferred
+                                // re-registration of a source that was updated while disabled): outside every statement
+                                self.facts.foreign = Some(format!("dispatch failed without a modelled cause: {res:?}"));
+                                return None;
+                            }
+                            // nobody was scripted to fail and nobody was misused: a source's own event processing failed,
+                            // which calloop's sources only do when they are handed an event that is not theirs (a ping /
+                            // channel source reading its empty eventfd) or lost their registration
+                            let sig = if self.srcs.iter().any(|m| m.renumbered_in_disp) { "C01/composite-renumbered-in-batch" } else { "C01.cause/unexplained-dispatch-error" };
+                            return Some((
+                                Violation::new("C01.cause", format!("dispatch returned {res:?} although no source was scripted to fail and none was misused: some source's event processing failed on an event that cannot be its own")).with_sig(sig),
+                                vec!["C01", "C06", "C15", "C16"],
+                            ));
                         }
                         if !self.disp_idles_ran.is_empty() {
                             return viol("C13.phase", &["C13"], format!("idle callbacks {:?} ran in a dispatch that returned an error", self.disp_idles_ran));
@@ -2024,7 +2055,8 @@ impl Monitor {
                             format!("lifecycle set has {lifecycle_len} entries ({lifecycle_distinct} distinct), model has {want_lc} enabled lifecycle sources"),
                         )
                         .with_sig(if *lifecycle_len > *lifecycle_distinct { "C14.set/duplicate" } else { "C14.set/stale-or-missing" }),
-                        vec!["C14", "C15"],
+                        // C09: a Disable / Remove post-action that leaves the lifecycle entry behind was applied only in part
+                        vec!["C14", "C15", "C09"],
                     ));
                 }
                 let want_heap = self.srcs.iter().filter(|m| matches!(m.kind, Kind::Timer { .. }) && m.armed_dl.is_some()).count()
